@@ -34,14 +34,10 @@ def run(ctx):
             ctx.check(bool(fn()), "COVER", f.key, "H1-preimage-depends-on:" + name,
                       "the binding-factor (H1) preimage no longer depends on the %s: a share would verify in a session "
                       "that differs in it" % name, f.loc)
-        ve = FnView.get(P, enc)
-        et = ok_values(enc, ve)
-        et = et[0] if et else ("unknown", "")
-        item = next_item(arg(1))
-        for name, pr in (("identifier", lambda s: tfield(item, 0)(s)),
-                         ("hiding-commitment", lambda s: is_field(s, "SigningCommitments", "hiding") and mentions(s, item)),
-                         ("binding-commitment", lambda s: is_field(s, "SigningCommitments", "binding") and mentions(s, item))):
-            ctx.check(mentions(et, pr), "COVER", enc.key, "encoded-list-depends-on:" + name,
+        _, pv = commitment_entry_parts(P)
+        parts = pv["parts"] if pv and pv["source"] == ("arg", 1) else []
+        for name, which in (("identifier", "identifier"), ("hiding-commitment", "hiding"), ("binding-commitment", "binding")):
+            ctx.check(any(entry_part(which)(p) for p in parts), "COVER", enc.key, "encoded-list-depends-on:" + name,
                       "the encoded commitment list no longer depends on every entry's %s" % name, enc.loc)
         # H1 is applied to exactly that preimage
         vc = FnView.get(P, cbl)
